@@ -108,10 +108,10 @@ func runHistory(run *ev.Run, caseIdx int, router int) {
 			}
 			switch chm {
 			case 1, 2:
-				m.verifier = fmt.Sprintf("verifier-%d-0123456789012345678901234567890123", r.IntN(1e6))
+				m.verifier = opdrv.Verifier(r)
 				m.challenge, m.method = opdrv.S256(m.verifier), "S256"
 			case 3:
-				m.verifier = fmt.Sprintf("plainverifier-%d-0123456789012345678901234567", r.IntN(1e6))
+				m.verifier = opdrv.Verifier(r)
 				m.challenge, m.method = m.verifier, "plain"
 			}
 			mode := pick(r, "", "", "query", "fragment", "form_post", "form_post")
@@ -298,6 +298,9 @@ func runHistory(run *ev.Run, caseIdx int, router int) {
 			switch verKind {
 			case "wrong":
 				verifier = "wrong-verifier-0123456789012345678901234567890123456"
+				if m.verifier != "" && r.IntN(2) == 0 {
+					verifier = opdrv.OtherVerifier(m.verifier) // same length, last character differs
+				}
 			case "absent":
 				verifier = ""
 			case "challenge":
